@@ -23,7 +23,7 @@ from vf.spec import INF, Ref, make_user_problem
 
 ID = "C13"
 LEVEL = "exploration"
-BUDGET = {"quick": 120, "thorough": 5000}
+BUDGET = {"quick": 120, "thorough": 20000}
 RULE = (
     "case = (spec with equality rows, point x with per-component placement inside/on/near/outside "
     "the box, y, reference iterate (x0,y0), rho, dt, optional explicit active set and tau); "
